@@ -31,7 +31,10 @@ RULE = ("programs = every sequence (length<=L) of placed-op letters (1q/2q/3q in
         "c64/c128/extra qubits, Circuit.final_state_vector, cirq.final_state_vector, terminal-measurement variants, "
         "Simulator/DensityMatrixSimulator dtype x split_untangled_states via simulate / simulate_moment_steps / "
         "simulate_sweep with every parameterisation mask, cirq.final_density_matrix, ClassicalStateSimulator "
-        "run/simulate/steps); the full cross product is enumerated for L<=1 and fixed sub-products for longer programs; "
+        "run/simulate/steps); a dedicated stage gives every entry point every ndarray initial-state form (flat, tensor, "
+        "density matrix; dtype equal to and different from the simulator's; split on/off) and demands that the caller's "
+        "array is bit-identical afterwards and that reusing the same array object gives the same result as a fresh copy; "
+        "the full cross product is enumerated for L<=1 and fixed sub-products for longer programs; "
         "a case is non-trivial when two ops share a wire or a multi-wire op sits on non-default axes; distinct = distinct "
         "(alphabet, ops, layout, order, state form, configuration) descriptor")
 TECHNIQUE = ("bounded-exhaustive enumeration of programs x layouts x qubit orders x initial-state forms x simulator "
@@ -737,6 +740,141 @@ def describe_sweep(case):
 
 
 # ------------------------------------------------------------------------------------------------
+# ndarray initial states must not be consumed: the caller's array stays bit-identical and can be reused
+
+REUSE_CFGS = (
+    [(k, dt, sp) for k in ("sim", "steps", "sweep") for dt in ("c128", "c64") for sp in (False, True)]
+    + [("Cfsv", "c128", None), ("Cfsv", "c64", None), ("fsv", "c64", None), ("fsv", "c128", None),
+       ("fdm", "c64", None), ("fdm", "c128", None)]
+    + [("dm", dt, sp) for dt in ("c128", "c64") for sp in (False, True)]
+    + [("dmsteps", "c128", False), ("dmsteps", "c128", True), ("dmsweep", "c128", False), ("dmsweep", "c128", True)]
+)
+REUSE_FORMS = ["flat", "tensor", "rho", "rho-tensor"]
+REUSE_MIX = 0.7  # density-matrix inputs are full rank (0.7 |psi><psi| + 0.3 I/D) so that complex64 validation is never marginal
+
+
+def _reuse_call(cfg, circ, qarg, arr):
+    """One call of the entry point with initial_state=arr; returns (kind, [copied result arrays])."""
+    kind, dt, split = cfg
+    dtype = DT[dt]
+    kw = {"initial_state": arr}
+    if qarg is not None:
+        kw["qubit_order"] = qarg
+    pts = cirq.Points("s", [0.25, 0.5])
+    if kind == "sim":
+        return "vec", [np.array(cirq.Simulator(dtype=dtype, split_untangled_states=split).simulate(circ, **kw).final_state_vector)]
+    if kind == "steps":
+        sim = cirq.Simulator(dtype=dtype, split_untangled_states=split)
+        return "vec", [st.state_vector(copy=True) for st in sim.simulate_moment_steps(circ, **kw)]
+    if kind == "sweep":
+        sim = cirq.Simulator(dtype=dtype, split_untangled_states=split)
+        return "vec", [np.array(r.final_state_vector) for r in sim.simulate_sweep(circ, pts, **kw)]
+    if kind == "Cfsv":
+        return "vec", [np.array(circ.final_state_vector(dtype=dtype, **kw))]
+    if kind == "fsv":
+        return "vec", [np.array(cirq.final_state_vector(circ, dtype=dtype, **kw))]
+    if kind == "fdm":
+        return "rho", [np.array(cirq.final_density_matrix(circ, dtype=dtype, **kw))]
+    if kind == "dm":
+        return "rho", [np.array(cirq.DensityMatrixSimulator(dtype=dtype, split_untangled_states=split).simulate(circ, **kw).final_density_matrix)]
+    if kind == "dmsteps":
+        sim = cirq.DensityMatrixSimulator(dtype=dtype, split_untangled_states=split)
+        return "rho", [st.density_matrix(copy=True) for st in sim.simulate_moment_steps(circ, **kw)]
+    if kind == "dmsweep":
+        sim = cirq.DensityMatrixSimulator(dtype=dtype, split_untangled_states=split)
+        return "rho", [np.array(r.final_density_matrix) for r in sim.simulate_sweep(circ, pts, **kw)]
+    raise core.HarnessError(f"reuse cfg {cfg}")
+
+
+def run_reuse(case):
+    seq, layout, oi, fi, in_dt, ci = case
+    seq = tuple(seq)
+    cfg = REUSE_CFGS[ci]
+    kind, dt, split = cfg
+    form = REUSE_FORMS[fi]
+    letters = ALPH["main"]
+    ops = [letters[li].op for li in seq]
+    if form.startswith("rho") and kind not in ("dm", "dmsteps", "dmsweep"):
+        return Res(skipped=True, nontrivial=False)
+    qarg, qs = _order("main", seq, oi)
+    if not qs:
+        return Res(skipped=True, nontrivial=False)
+    dims = [q.dimension for q in qs]
+    D = int(np.prod(dims))
+    if form in ("tensor", "rho-tensor") and len(dims) < 2:
+        return Res(skipped=True, nontrivial=False)
+    psi = _gen_state(D, 1).astype(DT[in_dt])
+    psi_ref = psi.astype(np.complex128)
+    if form == "flat":
+        arr = psi.copy()
+    elif form == "tensor":
+        arr = psi.copy().reshape(dims)
+    else:
+        rho = (REUSE_MIX * np.outer(psi_ref, psi_ref.conj()) + (1 - REUSE_MIX) * np.eye(D) / D).astype(DT[in_dt])
+        arr = rho.copy() if form == "rho" else rho.copy().reshape(dims + dims)
+    before = arr.copy()
+    circ = _build(ops, layout)
+    U = _ref_u("main", seq, qs)
+    atol = _tol(dt, len(seq))
+    if in_dt == "c64":
+        atol = max(atol, 3e-7)  # input normalised only to complex64 precision (see run_main)
+    f = U @ psi_ref
+    if form.startswith("rho"):
+        rho_in = before.reshape(D, D).astype(np.complex128)
+        final_ref = U @ rho_in @ U.conj().T
+    else:
+        final_ref = f
+    sig = dict(config="reuse-" + kind, split=bool(split), init_kind=form, order=ORDER_NAMES[oi],
+               has_global_phase_op=any(len(o.qubits) == 0 for o in ops), same_dtype=(in_dt == dt))
+
+    def ctx():
+        return (f"ops={[letters[i].name for i in seq]} layout={LAYOUT_NAMES[layout]} order={ORDER_NAMES[oi]} input form={form} "
+                f"input dtype={in_dt} config={cfg}\ncircuit:\n{circ}\nqubit order: {list(qs)}")
+
+    def fail(msg, k):
+        return bad(f"{msg}\n{ctx()}", kind=k, **sig)
+
+    outs = []
+    for attempt, a in (("first call", arr), ("second call with the SAME array object", arr), ("call with a fresh copy", before.copy())):
+        try:
+            rk, vals = _reuse_call(cfg, circ, qarg, a)
+        except core.HarnessError:
+            raise
+        except Exception as e:
+            return bad(f"{kind}[{dt},split={split}] {attempt} raised {type(e).__name__}: {e}\n{ctx()}\n{traceback.format_exc(limit=-3)}",
+                       kind="exception", exception=type(e).__name__, **sig)
+        if a is arr and not (arr.dtype == before.dtype and arr.shape == before.shape and np.array_equal(arr, before)):
+            diff = int(np.count_nonzero(arr != before)) if arr.shape == before.shape else -1
+            return fail(f"{kind}[{dt},split={split}] {attempt}: the caller's initial_state array was modified "
+                        f"({diff} of {before.size} entries changed) -- the input must not be consumed", "input_mutated")
+        outs.append(vals)
+        last = vals[-1]
+        ref = final_ref
+        if rk == "rho" and not form.startswith("rho"):
+            ref = np.outer(f, f.conj())
+        r = _cmp(f"{kind}[{dt},split={split}] {attempt}: final {'density matrix' if rk == 'rho' else 'state vector'}", ref, last, atol, ctx)
+        if r is not None:
+            r.sig.update(sig)
+            r.sig["kind"] = "reuse_" + r.sig.get("kind", "value")
+            return r
+    for name, other in (("second call with the same array", outs[1]), ("call with a fresh copy", outs[2])):
+        if len(other) != len(outs[0]):
+            return fail(f"{kind}: {name} returned {len(other)} results, first call {len(outs[0])}", "reuse_len")
+        for k, (x, y) in enumerate(zip(outs[0], other)):
+            if x.shape != y.shape or not np.allclose(x, y, atol=atol, rtol=0):
+                return fail(f"{kind}[{dt},split={split}] result #{k} of the {name} differs from the first call "
+                            f"(max diff {float(np.max(np.abs(x.astype(np.complex128) - y.astype(np.complex128)))) if x.shape == y.shape else 'shape'})",
+                            "reuse_differs")
+    return good(nontrivial=len(seq) >= 1, sims=3)
+
+
+def describe_reuse(case):
+    seq, layout, oi, fi, in_dt, ci = case
+    return {"ops": [ALPH["main"][i].name for i in seq], "layout": LAYOUT_NAMES[layout], "order": ORDER_NAMES[oi],
+            "input_form": REUSE_FORMS[fi], "input_dtype": in_dt, "config": list(REUSE_CFGS[ci])}
+
+
+# ------------------------------------------------------------------------------------------------
 # ClassicalStateSimulator on reversible classical letters
 
 CL_MODES = ["run", "simulate-int", "simulate-int-reversed-order", "simulate-digit-list", "moment-steps"]
@@ -955,6 +1093,19 @@ def stages(tier, seed):
                     for oi, init in [(0, ("z",)), (2, ("v", "flat128")), (3, ("b", 11)), (4, ("v", "flat64"))]:
                         casesN.append(("n4", seq, layout) + _fix(ci, oi, init) + (ci,))
 
+    # R: ndarray initial states are not consumed and can be reused (compact: all core letters, pairs over 8 of them)
+    casesR = []
+    pair8 = [i for i in allM if main[i].name in ("X(a)", "Z(a)^0.25", "H(c)", "CNOT(a,b)", "M2(c,a)", "SWAP(a,c)", "CZ(b,c)^g", "GP(e^ig)")]
+    seqsR = _seqs(coreM, 1, 1) + _seqs(pair8, 2, 2) + (_seqs(pair8, 3, 3) if thorough else [])
+    for seq in seqsR:
+        for oi in (0, 2):
+            for ci in range(len(REUSE_CFGS)):
+                for fi in range(len(REUSE_FORMS)):
+                    if fi >= 2 and REUSE_CFGS[ci][0] not in ("dm", "dmsteps", "dmsweep"):
+                        continue
+                    for in_dt in ("c128", "c64"):
+                        casesR.append((seq, 1 if len(seq) > 1 and oi == 2 else 0, oi, fi, in_dt, ci))
+
     # CL: classical simulator
     casesCL = []
     ncl = len(ALPH["cl"])
@@ -978,5 +1129,6 @@ def stages(tier, seed):
         CaseStage("sweep_prefix_reuse", casesS, run_sweep, reset=reset, describe=describe_sweep),
         CaseStage("axis_layout_long_range", casesX, run_main, reset=reset, describe=describe),
         CaseStage("four_qubits", casesN, run_main, reset=reset, describe=describe),
+        CaseStage("input_array_not_consumed", casesR, run_reuse, reset=reset, describe=describe_reuse),
         CaseStage("classical_simulator", casesCL, run_classical, reset=reset, describe=describe_classical),
     ]
